@@ -5,6 +5,8 @@ ScpiStatus (TVStatus).  V: random walks over full 16-bit values, all 65536 error
 import json, os, subprocess, sys, collections
 import lib
 
+PROPERTIES = ["C11", "C12"]
+
 C11_FIELDS = {'STB', 'queue', 'out', 'SRE', 'ESE', 'OPERE', 'QUESE', 'OPERC', 'QUESC'}
 C12_FIELDS = {'ESR', 'OPER', 'QUES', 'srq-missing', 'srq-without-mss', 'srq-while-mss-clear'}
 
@@ -136,3 +138,26 @@ def run(pid, tier):
     import shutil
     shutil.rmtree(w, ignore_errors=True)
     return rep.finish()
+
+def replay(pid, path):
+    """Re-validate the transitions stored in a replay file and print the comparison."""
+    rep = lib.Report(pid, 'quick')
+    w = lib.workdir(pid + 'r')
+    d = json.load(open(path))
+    with open(w + '/r.ndjson', 'w') as f:
+        for v in d.get('violations', []):
+            if 'transition' in v['detail']:
+                f.write(json.dumps(v['detail']['transition']) + '\n')
+    validate(rep, pid, w + '/r.ndjson', 'replay')
+    for k, dd in rep.viol:
+        print('REPLAY mismatch', k, lib.short(dd, 800))
+    return 1 if rep.viol else 0
+
+MANIFEST_C11 = dict(engine='explore+tlc-trace', ref='DESIGN.md section 6 C11',
+   technique='TLC model checking of ScpiStatus.tla + TLC validation of every transition of the implementation state graph and of random walks',
+   text='TLC exhaustively checks StbCoherent and the action properties on bounded alphabets of ScpiStatus.tla; the real library is explored breadth-first over the same alphabets (snapshot/restore, incl. ring indices) and every transition, plus seeded 16-bit random walks, is validated by TLC as the step the specification prescribes. Exhaustive within the alphabets, sampled beyond.',
+   note='Trusted: TLC, the driver projection (registers read from the context, queue content). Representative bits per register instead of all 16; direct STB writes excluded; SRE bit 6 ignored.')
+MANIFEST_C12 = dict(engine='explore+tlc-trace', ref='DESIGN.md section 6 C12',
+   technique='TLC model checking of ScpiStatus.tla + TLC validation of implementation transitions, all 65536 codes',
+   text='As C11, with the class-bit map checked for all 65536 codes on the real library, latching/stickiness of event bits and the service request (rising edge, never with MSS clear) compared on every explored transition.',
+   note='Trusted: TLC, driver projection and callback capture. Extra service requests while MSS is already 1 are accepted; on overflow the class bit of the dropped error is optional, the DER bit of -350 mandatory.')
